@@ -197,7 +197,7 @@ def run(sc, workdir):
         emit(ev)
         # ---- dispersity on a new parameter: volume-normalised mean of base evaluations over the mesh
         dn = dinfo.parameters
-        if dim == "1d" and n1 in dn.pd_1d:
+        if dim == "1d" and any(p.name == n1 and p.polydisperse and p.type not in ("orientation", "magnetic") for p in dn.call_parameters):
             pdp = dict(dpars)
             pdp.update({n1 + "_pd": 0.25, n1 + "_pd_n": rng.choice([3, 5]), n1 + "_pd_type": rng.choice(["gaussian", "rectangle"])})
             nq = dk.q_input.nq
